@@ -77,7 +77,7 @@ func runC14(ctx *core.Ctx, pool *par.Pool) {
 	if !ctx.Quick() {
 		cfgs = []pagedrv.Cfg{pagedrv.CfgA, pagedrv.CfgB, pagedrv.CfgC}
 		depth = 8
-		ctx.SetBudget(25 * time.Minute)
+		ctx.SetBudget(15 * time.Minute)
 	}
 	var total xstate.Stats
 	resizes, probes := 0, 0
